@@ -716,7 +716,7 @@ def kernel_view(calls):
     return [net_pair(o[0]), net_pair(o[1]), int(o[2]), int(o[3]), int(o[5])], int(o[7])
 
 
-def impl_responder(protect, rekey, tsis, tsrs, transport):
+def impl_responder(protect, rekey, tsis, tsrs, transport, busy=None):
     """Runs IkeSa.process_create_child_sa_request; returns the exception class name answered as a notify, or
     [policy index, child.tsi, child.tsr, mode, kernel selectors]."""
     import ikesa
@@ -731,6 +731,18 @@ def impl_responder(protect, rekey, tsis, tsrs, transport):
                             mode=xfrm.Mode.TUNNEL, lifetime=5)
         sa.child_sas.append(old)
         payloads.append(PayloadNOTIFY(Proposal.Protocol.ESP, PayloadNOTIFY.Type.REKEY_SA, b'\xbb' * 4))
+    if busy is not None:
+        # the responder has an exchange of its own outstanding that concerns ANOTHER CHILD_SA
+        other = ikesa.ChildSa(inbound_spi=b'\xd1' * 4, outbound_spi=b'\xd2' * 4, original_proposal=child_proposal(),
+                              proposal=child_proposal(), tsi=mk_ts((7, 6, 9, 9, 3232235777, 3232235777)),
+                              tsr=mk_ts((7, 6, 9, 9, 3232235778, 3232235778)), mode=xfrm.Mode.TUNNEL, lifetime=5)
+        sa.child_sas.insert(0, other)
+        if busy == 'deleting-another-child':
+            sa.state = ikesa.IkeSa.State.DEL_CHILD_REQ_SENT
+            sa.deleting_child_sa = other
+        else:
+            sa.state = ikesa.IkeSa.State.REK_CHILD_REQ_SENT
+            sa.rekeying_child_sa = other
     payloads += [PayloadSA([child_proposal(b'\xcc' * 4)]), PayloadNONCE(b'\x03' * 16),
                  PayloadTSi([mk_ts(t) for t in tsis]), PayloadTSr([mk_ts(t) for t in tsrs])]
     if transport:
@@ -1077,7 +1089,20 @@ def oracle(ctx, deep):
     for _ in range(20000 if deep else 1500):
         add(check_lookup(*gen_lookup(ctx, rel)))
     for _ in range(3000 if deep else 300):
-        add(check_responder(*gen_responder(ctx, rel)))
+        args = gen_responder(ctx, rel)
+        add(check_responder(*args))
+        # the answer does not depend on an exchange of the responder's own that concerns another CHILD_SA
+        idle = impl_responder(*args)
+        for busy in ('deleting-another-child', 'rekeying-another-child'):
+            got = impl_responder(*args, busy=busy)
+            ctx.count('responder-busy:' + busy)
+            if got != idle:
+                protect, rekey, tsis, tsrs, transport = args
+                add(Failure('property', 'ts:answer-depends-on-unrelated-exchange',
+                            f'request (rekey of {rekey}, TSi={tsis} TSr={tsrs}) is answered {idle} by an idle responder but '
+                            f'{got} while it is {busy}',
+                            {'kind': 'responder-busy', 'protect': protect, 'rekey': rekey, 'tsis': tsis, 'tsrs': tsrs,
+                             'transport': transport, 'busy': busy}))
     for _ in range(3000 if deep else 300):
         add(check_initiator(*gen_initiator(ctx, rel)))
     return fails
@@ -1114,6 +1139,12 @@ def replay(ctx, obj):
         f = check_responder(_tup(obj['protect']), rk, _tup(obj['tsis']), _tup(obj['tsrs']), obj['transport'])
     elif kind == 'initiator':
         f = check_initiator(*_tup(obj['c']))
+    elif kind == 'responder-busy':
+        rk = _tup(obj['rekey']) if obj['rekey'] is not None else None
+        a = (_tup(obj['protect']), rk, _tup(obj['tsis']), _tup(obj['tsrs']), obj['transport'])
+        idle, got = impl_responder(*a), impl_responder(*a, busy=obj['busy'])
+        if idle != got:
+            f = Failure('property', 'ts:answer-depends-on-unrelated-exchange', f'idle {idle} / {obj["busy"]} {got}', obj)
     return [f] if f is not None else []
 
 
